@@ -33,6 +33,7 @@ type prop struct {
 	Alt        *typ   // second member type of a heterogeneous node array
 	Scoped     bool   // the child's terms live in this property's scoped context
 	NoProp     bool   // the property-scoped context says @propagate:false
+	Graph      bool   // @container: @graph: the value is a named graph
 	DeclPrefix string // the property-scoped context declares this prefix; everything defined below uses it
 }
 
@@ -46,6 +47,7 @@ type typ struct {
 	DeclPrefix string            // the (propagated) type-scoped context declares this prefix; everything defined below uses it
 	Second     *typ              // nodes of this type also carry this second (type-scoped) type
 	Third      *typ              // ... and this third one
+	FixedID    string            // every node of this type carries this @id (the same node in several named graphs)
 	Shared     *prop             // a term every type of the node defines in its scoped context, each with another IRI
 	Redecl     *redecl           // this type's scoped context re-declares ANOTHER type term with another scoped context
 }
@@ -236,6 +238,35 @@ func (g *gen) heteroSchema() *typ {
 	return t
 }
 
+// graphSchema: two or three @container:@graph properties (e.g. several credentials of one holder) whose named
+// graphs contain a node with the SAME @id and the same nested property names.  The graphs are distinct, so every
+// field is stored under <graph property>/<nested property>/<field>, without any index.
+func (g *gen) graphSchema() *typ {
+	lit := func(dt string) *prop {
+		p := &prop{Term: g.term("p"), Kind: "lit", DT: dt}
+		p.IRI = vocab + p.Term
+		return p
+	}
+	addr := &typ{Term: g.term("T")}
+	addr.IRI = vocab + addr.Term
+	addr.Props = []*prop{lit(""), lit(xsd + "string")}
+	g.n++
+	holder := &typ{Term: g.term("T"), FixedID: fmt.Sprintf("urn:holder:%d", g.n), TypeScoped: g.r.Intn(2) == 0}
+	holder.IRI = vocab + holder.Term
+	address := &prop{Term: g.term("p"), Kind: "node", Child: addr}
+	address.IRI = vocab + address.Term
+	holder.Props = []*prop{lit(xsd + "integer"), address}
+	t := &typ{Term: g.term("T"), TypeScoped: g.r.Intn(2) == 0}
+	t.IRI = vocab + t.Term
+	t.Props = []*prop{lit("")}
+	for i, n := 0, 2+g.r.Intn(2); i < n; i++ {
+		gp := &prop{Term: g.term("p"), Kind: "node", Child: holder, Graph: true}
+		gp.IRI = vocab + gp.Term
+		t.Props = append(t.Props, gp)
+	}
+	return t
+}
+
 // prefixSchema: the iden3 schema-builder layout.  A prefix is declared only inside a scoped context (the
 // propagated type-scoped context of the root type, or a property-scoped context) and used by the
 // property-scoped contexts nested below it, at depth 2 and 3: Type.prop.nested(.nested2).
@@ -350,6 +381,9 @@ func (g *gen) termDef(p *prop) any {
 	case "iri":
 		def["@type"] = "@id"
 	case "node":
+		if p.Graph {
+			def["@container"] = "@graph"
+		}
 		if p.Scoped && p.Child != nil {
 			sc := map[string]any{}
 			old := g.localPfx
@@ -547,7 +581,10 @@ func cp[T any](s []T) []T { return append([]T{}, s...) }
 // repository's resolvers wrongly keep seeing).
 func (g *gen) node(t *typ, penv env, leak map[string]bool, docPath []string, parts []any, root *ctxRoot, topVisible bool, member bool, hetero bool) map[string]any {
 	obj := map[string]any{}
-	if g.r.Intn(3) == 0 {
+	if t.FixedID != "" {
+		obj[g.idKey()] = t.FixedID
+		g.features["same-id-in-several-graphs"] = true
+	} else if g.r.Intn(3) == 0 {
 		g.n++
 		obj[g.idKey()] = fmt.Sprintf("urn:n:%d", g.n)
 	}
@@ -758,6 +795,9 @@ func (g *gen) node(t *typ, penv env, leak map[string]bool, docPath []string, par
 				}
 			}
 		case "node":
+			if p.Graph {
+				g.features["graph-container"] = true
+			}
 			var arr []any
 			cenv := penv
 			cleak := childLeak
@@ -834,8 +874,10 @@ func (g *gen) randomDoc() *gdoc {
 	g.alias = g.r.Intn(3) == 0
 	g.prefix = g.r.Intn(3) == 0
 	var t *typ
-	kind := g.r.Intn(15)
+	kind := g.r.Intn(16)
 	switch {
+	case kind == 15:
+		t = g.graphSchema()
 	case kind == 13:
 		t = g.prefixSchema()
 	case kind == 12 || kind == 14:
